@@ -148,21 +148,34 @@ func c18MapOrder(w *mc.Worker) {
 	if w.Tier == "thorough" {
 		budget, weight = 3, 2
 	}
-	w.Stage(fmt.Sprintf("map-order-P%d", budget), fmt.Sprintf("variable-rich generator scripts of weight <= %d and their single name edits: CheckSource + GetSymbols under every map iteration order (<= 4 keys, <= %d non-identity picks)", weight, budget), func() {
+	w.Stage(fmt.Sprintf("map-order-P%d", budget), fmt.Sprintf("variable-rich generator scripts of weight <= %d and their single name edits: CheckSource + GetSymbols under every map iteration order (<= 4 keys, <= %d non-identity picks), plus 4 scripts declaring 6..9 variables under the canonical order, its reverse and two rotations", weight, budget), func() {
 		g := &Full{MaxStmts: 2, Depth: 1, VarsFree: true}
 		sawPoint := false
+		// declaration blocks too wide for all permutations (6..9 variables, unused / used / repeated):
+		// explored under the canonical order, its reverse and two rotations
+		wide := []string{
+			"vars { account $a1 account $a2 number $a3 string $a4 portion $a5 monetary $a6 }\nsend [ USD 1 ] ( source = @a destination = @b )\n",
+			"vars { account $a1 account $a2 number $a3 string $a4 portion $a5 monetary $a6 asset $a7 account $a8 }\nsend $a6 ( source = $a1 destination = $a8 )\n",
+			"vars { account $a1 account $a2 number $a3 string $a4 account $a2 monetary $a6 asset $a7 }\nsend [ USD 1 ] ( source = $a9 destination = $a2 )\n",
+			"vars { account $a1 account $a2 number $a3 string $a4 portion $a5 monetary $a6 asset $a7 account $a8 number $a9 }\nset_tx_meta ( \"k\" , $a3 )\n",
+		}
 		w.Outer(fmt.Sprintf("map-order-P%d/script", budget), weight, func(o *mc.Explorer) {
-			prog := g.Program(o)
-			if len(prog.Vars) < 2 {
-				return
-			}
-			// one optional name edit so that unused / duplicate / unbound variables occur
-			if o.Choose(2) == 1 {
-				if _, ok := c16Edit(o, prog); !ok {
+			text := ""
+			if wi := o.Choose(len(wide) + 1); wi > 0 {
+				text = wide[wi-1]
+			} else {
+				prog := g.Program(o)
+				if len(prog.Vars) < 2 {
 					return
 				}
+				// one optional name edit so that unused / duplicate / unbound variables occur
+				if o.Choose(2) == 1 {
+					if _, ok := c16Edit(o, prog); !ok {
+						return
+					}
+				}
+				text = gen.Text(prog)
 			}
-			text := gen.Text(prog)
 			if !w.Mine(text) {
 				return
 			}
